@@ -27,12 +27,13 @@ def fmt_dec(d):
 
 
 class Name:
-    __slots__ = ("canonical", "written", "kind")
+    __slots__ = ("canonical", "written", "kind", "options")
 
-    def __init__(self, canonical, kind, written=None):
+    def __init__(self, canonical, kind, written=None, options=()):
         self.canonical = canonical
         self.kind = kind            # "a" account, "c" commodity
         self.written = written if written is not None else canonical
+        self.options = list(options)    # aliases of `canonical` declared before this occurrence
 
 
 class Amount:
@@ -137,8 +138,8 @@ class Gen:
         """an occurrence of `canonical`, possibly written through an already declared alias."""
         al = self.aliases_of[kind].get(canonical, [])
         if self.use_aliases and al and self.rng.random() < 0.5:
-            return Name(canonical, kind, self.rng.choice(al))
-        return Name(canonical, kind)
+            return Name(canonical, kind, self.rng.choice(al), al)
+        return Name(canonical, kind, None, al)
 
     def value(self, places_ok=True):
         r = self.rng
